@@ -111,6 +111,9 @@ CASES = [
     "np.sqrt(np.asarray([4.0, 9.0])), np.abs(np.asarray([-1, 2]))",
     "np.prod((2, 3)), np.prod(())",
     "np.asarray([[1, 2], [3, 4]]).flatten(), np.asarray([[1, 2], [3, 4]]).T.flatten()",
+    "np.asarray([[1, 2, 3], [4, 5, 6]]).copy(order='F').ravel(order='K'), np.asarray([[1, 2, 3], [4, 5, 6]]).copy(order='F').flatten(), np.asarray([[1, 2, 3], [4, 5, 6]]).copy(order='F').tolist()",
+    "np.asarray([[1, 2, 3], [4, 5, 6]]).T.copy(order='K').ravel(order='K'), np.asarray([[1, 2, 3], [4, 5, 6]]).T.copy().ravel(order='K'), np.asarray([[1, 2, 3], [4, 5, 6]])[:, ::2].ravel(order='K')",
+    "np.asfortranarray(np.asarray([[1, 2], [3, 4]])).ravel(order='K'), np.ascontiguousarray(np.asarray([[1, 2], [3, 4]]).T).ravel(order='K'), np.asarray([[1, 2], [3, 4]])[::-1].ravel(order='K')",
     "np.asarray([1, 2, 3])[::-1], np.asarray([1, 2, 3])[5:], np.asarray([1, 2, 3])[-2:]",
     "np.asarray([[0.0, 1.0], [1.0, 2.0]])[1:, 0], np.asarray([[0.0, 1.0], [1.0, 2.0]])[:-1, 1]",
     "np.promote_types('int16', 'float16'), np.can_cast('int64', 'float64'), np.can_cast('float64', 'int64')",
